@@ -147,13 +147,21 @@ PtimeAfter(msgs) ==
         ELSE LET i == CHOOSE j \in 1..Len(msgs) : msgs[j].m = m IN msgs[i].pt]
 
 \* The configuration echo of a subscription resource (C10), and its topic field (C11).
+NoTopicHolder(c) ==
+    /\ \A c2 \in DOMAIN pend \ {c} : pend[c2].e.op \in {"Pull", "StreamOpen", "Ack", "ModAck", "GetSub", "ListSubs", "ListTopics", "Other"}
+    /\ \A g \in gone : g.op \in {"Pull", "StreamOpen", "Ack", "ModAck", "GetSub", "ListSubs", "ListTopics"}
+
 SubEchoGuards(c, b, si) ==
     LET s == S[si] IN
     { G("C10", b.name = s.name),
       G("C10", b.ack * SecMs = s.D),
       G("C10", b.push = s.push),
       G("C11", b.topic = T[s.topic].name \/ (b.topic = DeletedTopicName /\ T[s.topic].deleted)),
-      G("C11", (Solo(c) /\ T[s.topic].deleted /\ ~TopicBound(s.topic)) => b.topic = DeletedTopicName) }
+      \* after DeleteTopic returned: reported as deleted.  (Requests addressed to the topic that are
+      \* still in flight may keep it alive a little longer; consumers of the subscription - blocked
+      \* pulls, open streams - and requests addressed to subscriptions must not.)
+      G("C11", (NoTopicHolder(c) /\ T[s.topic].deleted /\ ~TopicBound(s.topic)) => b.topic = DeletedTopicName) }
+
 
 \* A request that raced with the deletion of its subscription may fail with any status.
 RacedDeletion(W, name) == \E si \in SubLookups(W, name) \ {None} : si \in DOMAIN S /\ S[si].st # "live"
@@ -288,7 +296,7 @@ RetGuards(c, e) ==
                                      /\ e.body.topic \in {p.topic, DeletedTopicName})),
           \* the deadline in force is the requested one raised to the minimum; for a requested value
           \* outside the valid range (negative, below the minimum) that is "handled cleanly" (C17)
-          G(IF p.ack >= MinAckSec THEN "C10" ELSE "C17", e.code = "OK" =>
+          G(IF p.ack >= MinAckSec THEN "C04,C10" ELSE "C17", e.code = "OK" =>
                        /\ e.body.ack * SecMs = EffDeadline(p.ack)
                        /\ \A w \in W : (w.k = "m.cs" /\ w.name = p.name /\ w.ok) => w.dms = EffDeadline(p.ack)),
           G("C12", e.code \notin {"OK", "NOT_FOUND", "ALREADY_EXISTS", "INVALID_ARGUMENT"} =>
@@ -605,6 +613,8 @@ EvGuards(e) ==
             (IF e.c \in DOMAIN pend /\ pend[e.c].e.op \in {"StreamOpen", "Pull"}
                 /\ RacedDeletion(Win(e.c), pend[e.c].e.sub)
              THEN { G("C12", FALSE) } ELSE {}) \cup
+            \* a request that hangs after another request was abandoned: something was left wedged (C16)
+            (IF gone # {} THEN { G("C16", FALSE) } ELSE {}) \cup
             \* a stream that received a malformed control message ends with INVALID_ARGUMENT
             (IF e.c \in DOMAIN pend /\ pend[e.c].e.op = "StreamOpen"
                 /\ \E j \in 1..Len(pend[e.c].ctrl) : pend[e.c].ctrl[j].mal
